@@ -137,6 +137,8 @@ def scenario(ctx, p):
                 s.cut(a, x)
             elif mode == "noticed":
                 s.disconnect(a, x)
+            elif mode == "flapping":
+                s.disconnect(a, x)
             elif mode == "leader-notices":
                 s.cut(a, x)
                 s.notice(a, x)
@@ -148,7 +150,15 @@ def scenario(ctx, p):
     side = [ldr] + others[:keep]
     steps = int((T + 1.0) / dt) + 8
     left_at = None
+    flap_every = max(1, int(T / (2 * dt)))
     for k in range(steps):
+        if mode == "flapping" and k % flap_every == flap_every - 1:
+            # the links come up and die again before a single message gets through (a frozen peer whose
+            # kernel still accepts connects): a bare connection event is not "hearing from" a voter
+            for a in side:
+                for x in victims:
+                    s.connect(a, x)
+                    s.disconnect(a, x)
         for i in side:
             w.tick(i, dt)
         w.deliver_all()
@@ -186,13 +196,15 @@ def params(ctx):
             for keep in sorted(set([0, max(need - 2, 0)])):
                 out.append({"n": n, "T": T, "dt": 0.0625 if T < 30 else 0.5, "mode": "silent", "keep": keep,
                             "offset": [], "seed": 1})
+                if 0.25 <= T <= 2.0:
+                    out.append({"n": n, "T": T, "dt": 0.0625, "mode": "flapping", "keep": keep, "offset": [], "seed": 1})
     n_rand = ctx.scale(500, 20000)
     for k in range(n_rand):
         n = rng.choice([2, 3, 3, 4, 5, 5])
         need = n // 2 + 1
         T = rng.choice(T_POOL[:-1] if rng.random() < 0.9 else T_POOL)
         out.append({"n": n, "T": T, "dt": rng.choice(DT_POOL) if T < 30 else 0.5,
-                    "mode": rng.choice(["silent", "silent", "noticed", "leader-notices", "follower-notices"]),
+                    "mode": rng.choice(["silent", "silent", "noticed", "leader-notices", "follower-notices", "flapping"]),
                     "keep": rng.randint(0, max(need - 2, 0)),
                     "offset": [rng.choice([0.0009765625, 0.03125, 0.0625, 0.1240234375, 0.125]) for _ in range(rng.randint(0, 3))],
                     "seed": rng.randrange(10 ** 6)})
